@@ -559,9 +559,19 @@ def probe_flags(T):
     K = Kronecker(Dense(B), Dense(B))
     out = {}
     fl = []
+    # presence is decided on a tiny instance by the type of the (lazy) result -- immune to machine load; the 900 x 900
+    # instance only supplies the memory figures of the witness
+    tiny = spd(rng, 4)
+    KSt, Kt = KronSum(Dense(tiny), Dense(tiny)), Kronecker(Dense(tiny), Dense(tiny))
+
+    def generic_result(f):
+        try:
+            return not type(f()).__name__.startswith("Kronecker")
+        except Exception:
+            return True
     # exp(KronSum) without a positional algorithm: result type and memory
     r, peak, _, err = measure(lambda: LA.exp(KS))
-    dens = err is None and not type(r).__name__.startswith("Kronecker")
+    dens = generic_result(lambda: LA.exp(KSt))
     r2, _, _, err2 = measure(lambda: LA.exp(KS, LA.Auto()))
     b = np.ones(n2 * n2)
     _, pk_gen, _, _ = measure(lambda: LA.exp(KS) @ b)
@@ -574,7 +584,7 @@ def probe_flags(T):
     r, peak, _, err = measure(lambda: LA.pow(K, 2.5))
     _, pk_gen, _, _ = measure(lambda: LA.pow(K, 2.5) @ b)
     _, pk_str, _, _ = measure(lambda: LA.pow(K, 2.5, LA.Auto()) @ b)
-    dens = err is None and not type(r).__name__.startswith("Kronecker")
+    dens = generic_result(lambda: LA.pow(Kt, 2.5))
     r2, _, _, err2 = measure(lambda: LA.pow(K, 2.5, LA.Auto()))
     fl.append(dict(flag="pow_kron_requires_alg", present=bool(dens),
                    what="pow(Kronecker, alpha) with the algorithm omitted (or passed by keyword) selects the generic rule (dense eigendecomposition of the full matrix below 1e6 entries, an n x max_iters Krylov basis above) instead of working factor by factor: pow(Kronecker, alpha, alg) is registered without the default",
